@@ -290,8 +290,12 @@ var lhCertNames = map[string][]string{"C1": {"a.example.com", "www.a.example.com
 var lhVips = []string{"10.0.0.1", "10.0.0.2", "2001:db8::1", "2001:DB8::1", "::ffff:10.0.0.3"}
 var lhConnVips = []string{"10.0.0.1", "10.0.0.2", "2001:db8::1", "10.0.0.3", "10.9.9.9"}
 
-func genLhConf(r *vh.Rand) string {
-	switch r.Intn(25) {
+func genLhConf(r *vh.Rand, clean bool) string {
+	k := r.Intn(25)
+	if clean {
+		k = 9
+	}
+	switch k {
 	case 0:
 		return "!json"
 	case 1:
@@ -299,7 +303,7 @@ func genLhConf(r *vh.Rand) string {
 	}
 	n := r.Range(1, 3)
 	defect := -1
-	if r.Chance(1, 3) {
+	if !clean && r.Chance(1, 3) {
 		defect = r.Intn(9)
 	}
 	usedVip := map[string]bool{}
@@ -371,7 +375,7 @@ func genLh(r *vh.Rand) string {
 	nc := r.Range(2, 4)
 	var confs []string
 	for i := 0; i < nc; i++ {
-		confs = append(confs, genLhConf(r))
+		confs = append(confs, genLhConf(r, i == 0 && r.Chance(5, 6)))
 	}
 	pickSni := func() string {
 		all := []string{"a.example.com", "www.a.example.com", "x.b.example.com", "b.example.com", "deep.c.test", "default.test", "A.EXAMPLE.COM", "x.b.example.com.", "unknown.test", "-"}
